@@ -508,7 +508,9 @@ void checkTB(const sess::History& h, const uci::Model& m, vf::Result& res) {
                     res.violate("C13", "inexact-distance", "final exact score '" + lastLine + "' but the exact result is mate " + std::to_string(want) + ctx);
             } else {
                 res.counters["tb_unsettled_results"]++;
-                if (lastMate && ((lastScore > 0) != won || std::llabs(lastScore) < rv.moves()))
+                // a win cannot be announced shorter than the exact distance; for a lost root an unsettled search
+                // may not have found the longest defence (or the fastest attack) yet, so only the sign is judged
+                if (lastMate && ((lastScore > 0) != won || (won && lastScore < rv.moves())))
                     res.violate("C13", "inexact-distance", "'" + lastLine + "' contradicts the exact result mate " + std::to_string(want) + ctx);
                 if (!lastMate && lastDepth >= 2 * rv.moves() + 2)
                     res.violate("C13", "inexact-distance", "no mate score at depth " + std::to_string(lastDepth) + " ('" + lastLine + "') although the exact result is mate " + std::to_string(want) + ctx);
@@ -592,10 +594,14 @@ void genC13(uint64_t seed, int tier, Scenario& sc) {
     sc.setS("tb_key", key);
     gu::pushSend(sc, "setoption name Hash value " + std::to_string(r.chance(0.4) ? 8 : r.range(8, 64)));
     gu::pushSend(sc, "setoption name Threads value " + std::to_string(r.chance(0.5) ? 1 : r.range(2, 4)));
-    int nSearch = (int)r.range(1, 3);
+    int nSearch = (int)r.range(1, 4);
     for (int i = 0; i < nSearch; i++) {
         int hmc = r.chance(0.5) ? 0 : (int)r.range(0, 99);
-        gu::pushSend(sc, "position fen " + placementFen(r, key, hmc));
+        // mostly the same material class; sometimes another one, so that a resident table is replaced (or its
+        // replacement is aborted by an early stop) and the first class comes back later
+        std::string k2 = key;
+        if (r.chance(0.3)) k2 = r.chance(0.8) ? k3[r.below(2)] : (r.chance(0.5) ? "KQvKR" : "KRBvK");
+        gu::pushSend(sc, "position fen " + placementFen(r, k2, hmc));
         gu::pushSend(sc, "go infinite");
         if (r.chance(0.15)) sc.ops.push_back("wait_steps " + std::to_string(r.logRange(1, 200))); // may land inside the generation
         else sc.ops.push_back("wait_ticks " + std::to_string(r.chance(0.2) ? r.logRange(10, 3000) : 40000)); // normally until the search has ended by itself (deep enough for the mate)
